@@ -16,10 +16,16 @@ NAMES = ['Alice', 'Bob', 'Carol', 'Dave', 'Erin', 'Frank', 'Grace', 'Heidi',
          'Ivan']
 
 
+# Thousands separators: every importer but the PokerStars one accepts
+# "1,200" (the sites print large amounts that way); the C20 check switches
+# this on per case for those five formats.
+THOUSANDS = False
+
+
 def money(x):
     if isinstance(x, Decimal):
-        return f'{x:.2f}'
-    return str(x)
+        return f'{x:,.2f}' if THOUSANDS else f'{x:.2f}'
+    return f'{x:,}' if THOUSANDS and isinstance(x, int) else str(x)
 
 
 def extract(state, seats, hero):
